@@ -63,6 +63,11 @@ CHECKS["C13"] = dict(
    technique="TLA+ spec SubLifecycle.tla checked exhaustively by TLC; real agents stopped gracefully (shutdown order of command/agent.rs) or abruptly (data directory copied while running) and restarted, judged by the property",
    text="TLC explores creation, initial query, changes whose match step runs later, trip, drop_handles, drain, marker write, process death at any point and start, and checks that only subscriptions marked completed are restored, that the marker implies nothing is unmatched, and that everything else is removed at start. On real agents the graceful path must leave state 'completed', restore the same id with rows equal to the query, a change log ending at the last produced change and new ids continuing at +1; the abrupt path must not restore, must remove the directory and answer 404.",
    note="graceful runs keep the last write 300 ms away from the trip (known finding S7 region; probed at 0 ms); process death, not power loss")
+CHECKS["C16"] = dict(
+   level="model_checking", engine="cluster", design="§6/C16",
+   technique="TLA+ spec Cluster.tla checked exhaustively by TLC; the full matrix of declared/actual cluster ids replayed hook-free on two real agents through the public Transport and parallel_sync",
+   text="TLC checks that no payload is applied whose declared cluster differs from the receiver's current one (including on connections accepted before a cluster change) and that sync sessions across clusters get exactly the DifferentCluster rejection. Two real agents are then driven with hand-built UniPayload frames (cluster 0/1/2/absent field) on fresh and pre-existing connections and with parallel_sync for every pair of cluster ids; tables and outcomes must match the specification.",
+   note="two nodes; target selection among mixed-cluster members is left to C18's ring0 filter; QUIC on loopback")
 CHECKS.update({
  "C01": repl("§6/C01", "TLC checks NoInvention / NoLoss (a node that claims a version has every change of it that has not lost globally) / Converged / MergeOfAll on every behaviour of small instances (any delivery order, duplication, re-cut, loss, batching, sync serving, restart); seeded walks over 2-3 real agents are accepted only if every step is the specification's step, and the final drain must reach quiescence with byte-identical tables equal to the merge of all acknowledged transactions."),
  "C03": repl("§6/C03", "TLC checks Atomic (nothing of a remote version visible before the step that applies it), CoveredIsPending and BufferedHaveRecord on the model; real walks with re-cut, overlapping, duplicated chunks from origin and relays in batches are validated step by step, the harness observes the apply trigger exactly when the specification says the version is covered, and the drain must resolve every partial version."),
@@ -115,6 +120,7 @@ def main():
             {"name": "matcher", "path": "specs/Matcher.tla + harness/src/matchwalk.rs + lib/prop_c11.py", "serves_properties": ["C11"], "kind_free_text": "TLA+ model checked by TLC; differential oracle against SQLite on real subscriptions"},
             {"name": "updates", "path": "specs/Updates.tla + harness/src/updwalk.rs + lib/prop_c14.py", "serves_properties": ["C14"], "kind_free_text": "TLA+ model checked by TLC; real feed judged"},
             {"name": "sublifecycle", "path": "specs/SubLifecycle.tla + harness/src/sublife.rs + lib/prop_c13.py", "serves_properties": ["C13"], "kind_free_text": "TLA+ model checked by TLC; real stop/restart scenarios judged"},
+            {"name": "cluster", "path": "specs/Cluster.tla + harness/src/clusterprobe.rs + lib/prop_c16.py", "serves_properties": ["C16"], "kind_free_text": "TLA+ model checked by TLC; matrix replayed on real agents"},
             {"name": "replication", "path": "specs/Replication.tla + specs/TraceReplication.tla + specs/MCReplication*.tla + harness/src/sim.rs + lib/repl.py + lib/repl_check.py", "serves_properties": ["C01", "C03", "C05", "C06", "C07"], "kind_free_text": "TLA+ model checked by TLC; recorded walks of real agents validated against the spec; counter-examples replayed on real agents"},
             {"name": "bookkeeping", "path": "specs/Bookkeeping.tla + specs/MCBookkeeping.tla + harness/src/bk.rs + lib/prop_c02.py", "serves_properties": ["C02"], "kind_free_text": "TLA+ model checked by TLC; all edges replayed on the real crates"},
         ],
